@@ -463,7 +463,7 @@ class WebSocketApp:
             return True
 
         def check() -> bool:
-            if self.ping_timeout:
+            if self.ping_timeout and self.keep_running:
                 has_timeout_expired = (
                     time.time() - self.last_ping_tm > self.ping_timeout
                 )
